@@ -166,6 +166,25 @@ def run(ctx):
                                     ctx.violation("eff-angle", f"the effective angle grows when the threshold rises to {t!r}", wit)
                                 prev = ce2
                         cfg.detector.optical.photo_electron_threshold = thr
+            # ---------------- call history: one EAS object, same batch size, different patterns ------
+            cfg = NssConfig()
+            eas_obj = EAS(cfg)
+            n = 24
+            pats = [rng.uniform(0, 20, n) for _ in range(4)]
+            pats[1][: n // 2] = 25.0
+            pats[2][n // 2 :] = -1.0
+            pats[3][::3] = np.inf
+            be, en = rng.uniform(0, B42, n), 10 ** rng.uniform(-2, 3, n)
+            la, lo = rng.uniform(-1, 1, n), rng.uniform(-3, 3, n)
+            for hi_, alt_h in enumerate(pats + pats[:2]):
+                got = eas_obj(be, alt_h, en, la, lo)
+                ref = EAS(cfg)(be, alt_h, en, la, lo)
+                ctx.count("history", n)
+                if not (np.asarray(got[0]).tobytes() == np.asarray(ref[0]).tobytes() and np.asarray(got[1]).tobytes() == np.asarray(ref[1]).tobytes()):
+                    d = np.flatnonzero((np.asarray(got[0]) != np.asarray(ref[0])) | (np.asarray(got[1]) != np.asarray(ref[1])))
+                    i = int(d[0])
+                    ctx.violation("history", f"call #{hi_ + 1} on one EAS object (same batch size, different decay altitudes) differs from a fresh object at event {i}: altDec={alt_h[i]!r} gives (PE {np.asarray(got[0])[i]!r}, cos {np.asarray(got[1])[i]!r}) instead of ({np.asarray(ref[0])[i]!r}, {np.asarray(ref[1])[i]!r})", {"call": hi_ + 1, "event": i})
+                    break
             # ---------------- inverse square between detector altitudes -----------------------
             log["batch"].clear()
             k525 = CphotAng(525.0)
@@ -193,7 +212,7 @@ def run(ctx):
     finally:
         CphotAng.__call__ = o_call
         CphotAng.run = o_run
-    for mname in ("wiring", "pe", "range-cut", "eff-angle", "eff-angle-boundary", "inv-square"):
+    for mname in ("wiring", "pe", "range-cut", "eff-angle", "eff-angle-boundary", "inv-square", "history"):
         ctx.require(mname)
     return ctx.finish(
         rule="batches through the real EAS.__call__ for detector altitudes {33, 525, 1000[, 100, 36000]} km x 3 (area, efficiency, threshold) settings: beta in [0, 42 deg], shower energies 1e-4..3e3 x 100 PeV, decay altitudes uniform in [0,20] km with 10 hostile values (-inf, -5, -1e-9, -5e-324, 0, 20, 20+ulp, 20+1e-9, 1e3, +inf) at random positions; thresholds placed so that PE/threshold is exactly 2 and one ulp either side; two-detector runs of the kernel for the inverse-square clause; a case is a distinct (detector, beta, altitude, energy)",
